@@ -27,6 +27,18 @@ func (d *drillmasterActor) OnReceive(ctx vivid.ActorContext) {
 	switch m := ctx.Message().(type) {
 	case *cm.ActorOf:
 		d.onActorOf(ctx, m)
+	case *vivid.OnTerminated:
+		d.onTerminated(m)
+	}
+}
+
+func (d *drillmasterActor) onTerminated(m *vivid.OnTerminated) {
+	for _, identities := range d.members {
+		for identity, ref := range identities {
+			if ref.Equal(m.TerminatedActor) {
+				delete(identities, identity)
+			}
+		}
 	}
 }
 
